@@ -1466,7 +1466,8 @@ class _minmax(object):
                     else:
                         cnst = _vecmin(cnst,f)
 
-                elif type(f) is variable or type(f) is _function:
+                elif type(f) is variable or (type(f) is _function and
+                    (f._isconvex() if self._ismax else f._isconcave())):
                     self._flist += [+f]
 
                 else:
@@ -1641,15 +1642,13 @@ def max(*s):
 
     try: return builtins.max(*s)
     except NotImplementedError:
-        f = _function()
-        try: 
-            f._cvxterms = [_minmax('max',*s)]
-            return f
-        except: 
-            # maybe s[0] is a list or tuple of variables, functions
+        if len(s) == 1 and type(s[0]) in (list, tuple):
+            # s[0] is a list or tuple of variables, functions
             # and constants
-            try: return max(*s[0])
-            except: raise NotImplementedError
+            return max(*s[0])
+        f = _function()
+        f._cvxterms = [_minmax('max',*s)]
+        return f
 
 
 
@@ -1680,15 +1679,13 @@ def min(*s):
 
     try: return builtins.min(*s)
     except NotImplementedError:
-        f = _function()
-        try: 
-            f._ccvterms = [_minmax('min',*s)]
-            return f
-        except:
-            # maybe s[0] is a list or tuple of variables, functions
+        if len(s) == 1 and type(s[0]) in (list, tuple):
+            # s[0] is a list or tuple of variables, functions
             # and constants
-            try: return min(*s[0])
-            except: raise NotImplementedError
+            return min(*s[0])
+        f = _function()
+        f._ccvterms = [_minmax('min',*s)]
+        return f
 
 
 
